@@ -563,7 +563,7 @@ func TestC12(t *testing.T) {
 		c := caseGen.Example(envInt("VERIF_SEED", 0)*100 + envInt("VERIF_SHARD", 0)*10 + i%3)
 		c.DebCompression, c.RPMCompression = sw.deb, sw.rpm
 		// payloads large enough to keep the compressors busy while the others run
-		c.Tree = append(c.Tree, FNode{Rel: "src/bulk", Kind: "file", Size: 300000, Seed: 7 + i, Mode: 0o644, MTime: 900000000})
+		c.Tree = append(c.Tree, FNode{Rel: "src/bulk", Kind: "file", Size: 150000, Seed: 7 + i, Mode: 0o644, MTime: 900000000})
 		c.Contents = append(c.Contents, Entry{Src: "src/bulk", Dst: "/opt/bulk/data", Form: "single"})
 		fc := &FleetCase{Case: c, Reps: reps}
 		for k := 0; k < 6; k++ {
@@ -576,7 +576,7 @@ func TestC12(t *testing.T) {
 	st.Exhaustive["same-format fleets: format x compressor"] = len(sweep)
 	// directed shared-configuration fleets: every entry type once with a complete file_info (nothing left to default)
 	// and once without, all five formats concurrently from ONE parsed configuration
-	for v := 0; v < 3; v++ {
+	for v := 0; v < 2; v++ {
 		full := &FileInfoSpec{Owner: "svc", Group: "svc", Mode: 0o750, MTime: 1100000000 + int64(v)}
 		c := &BuildCase{
 			Meta:  Meta{Name: "sharedfleet", Arch: "amd64", Version: "1.0.0", Maintainer: "V <v@example.com>", Description: "d"},
@@ -635,6 +635,7 @@ func TestC12(t *testing.T) {
 			labels = append(labels, "pointee-data")
 		}
 		st.Record(fc, len(distinct) >= 2 && hasPointeeData(c), labels...)
+		st.AddEvals(fc.Reps*len(fc.Workers) - 1) // concurrent builds executed for this fleet
 		st.Report(rt, fc, checkFleet(fc))
 	})
 }
